@@ -164,6 +164,8 @@ def call(ex, st, fn, args, kw, node):
     if name == "type":
         from .symexec import TypeOf
         yield st, TypeOf(args[0]); return
+    if name == "list" and len(args) == 1 and isinstance(args[0], (list, tuple)):
+        yield st, list(args[0]); return           # a new concrete list (elements may be symbolic)
     if name == "list" and len(args) == 1 and isinstance(args[0], UFL):
         yield st, args[0]; return
     if name in ("list", "sorted") and isinstance(args[0], (list, tuple)) and not any(isinstance(x, (Sym, Ref)) for x in args[0]):
@@ -273,6 +275,12 @@ def method(ex, st, recv, name, args, kw, node=None):
         tgt = node.func.value; rl = args[0]; n0 = recv.length; cnt = lift(rl.count).z
         item = lift_to(recv.elem_ty, rl.item if recv.elem_ty.kind in ("tuple", "opt") else unopt(rl.item))
         new = UFL(recv.elem_ty, (lambda i, r=recv, item=item, n0=n0: z3.If(i >= n0, item, r.at(i))), n0 + z3.If(cnt > 0, cnt, 0))
+        for s2, _ in ex.assign(st, tgt, new): yield s2, None
+        return
+    if isinstance(recv, UFL) and name == "insert" and len(args) == 2:
+        tgt = node.func.value; k = lift(args[0]).z; item = lift_to(recv.elem_ty, args[1] if recv.elem_ty.kind in ("tuple", "opt") else unopt(args[1])); n0 = recv.length
+        pos = z3.If(k < 0, z3.If(n0 + k < 0, 0, n0 + k), z3.If(k > n0, n0, k))
+        new = UFL(recv.elem_ty, (lambda i, r=recv, item=item, pos=pos: z3.If(i < pos, r.at(i), z3.If(i == pos, item, r.at(i - 1)))), n0 + 1)
         for s2, _ in ex.assign(st, tgt, new): yield s2, None
         return
     if isinstance(recv, UFL) and name in ("append", "add"):      # a Python set modelled as a list: add == append (membership and add only)
